@@ -24,12 +24,12 @@ theorem phase_jump_gap {ms : Option Nat} {c : ChanState} {others : List ChanStat
     (h : makeNextPulseSlot ms c others p barriers proto drift blk = .ok slot)
     (hproto : proto ≠ .noDelay) (hlp : c.lastPulseSlot true = some (ls, lp))
     (hph : lp.phase ≠ fmtPhase (correctedPhase p drift (curMaxOf others last barriers proto))) :
-    ls.tf + ((max c.cfg.pjt (if c.inEomMode then 2 * c.cfg.rise else 0) : Nat) : Int)
+    ls.tf + ((max c.cfg.pjt (if c.inEomMode then 2 * max c.cfg.rise c.modeRise else 0) : Nat) : Int)
       + (lp.fall c.inEomMode : Nat) ≤ slot.ti := by
   obtain ⟨delay, p', h1, _, _, _, _, _, _, hneed⟩ := makeNextPulseSlot_spec hc hl h
   have hb : phaseJumpBuffer c last.tf
       (fmtPhase (correctedPhase p drift (curMaxOf others last barriers proto))) proto =
-      ((max c.cfg.pjt (if c.inEomMode then 2 * c.cfg.rise else 0) : Nat) : Int)
+      ((max c.cfg.pjt (if c.inEomMode then 2 * max c.cfg.rise c.modeRise else 0) : Nat) : Int)
         + (lp.fall c.inEomMode : Nat) - (last.tf - ls.tf) := by
     unfold phaseJumpBuffer
     rw [if_pos hproto, hlp]
@@ -52,7 +52,7 @@ theorem add_phase_jump_gap (s : SeqState) (hi : SeqInv s) (p : PulseIn) (n : ChN
       s.getChan n = some c ∧ (addCore s p n (some proto) none).st.getChan n = some c' ∧
       c'.last = .ok slot ∧ slot.kind = .pulse pr ∧
       ∀ ls lp, c.lastPulseSlot true = some (ls, lp) → lp.phase ≠ pr.phase →
-        ls.tf + ((max c.cfg.pjt (if c.inEomMode then 2 * c.cfg.rise else 0) : Nat) : Int)
+        ls.tf + ((max c.cfg.pjt (if c.inEomMode then 2 * max c.cfg.rise c.modeRise else 0) : Nat) : Int)
           + (lp.fall c.inEomMode : Nat) ≤ slot.ti := by
   obtain ⟨c, c', last, slot, pr0, ref, hgc, hl, _, hpr, hm, hget, hl'⟩ := addCore_ok_spec hi hok
   have hci := hi c (getChan_mem hgc).1
